@@ -71,7 +71,9 @@ def run(ctx):
     impl = vlib.run_lines(exe, lines)
     # the same calls with the thread's floating-point rounding direction set upward / downward / toward zero (an application that does interval
     # arithmetic around the library): the functions are integer arithmetic or exact binary64 operations, so nothing may change
-    sub = list(range(0, len(lines), 1 if thorough else 5))
+    # (only the calls whose arguments and results the harness passes through exactly: 'dtotp' adds the integer shift to the real in the harness, in
+    #  binary64, which is itself subject to the rounding direction - it stays in the default-mode run only)
+    sub = [i for i in range(0, len(lines), 1 if thorough else 5) if cases[i][0] in ('msf', 'aph', 'mst', 'dtot', 't32tod', 'tdt')]
     for mode, mname in ((1, 'FE_UPWARD'), (2, 'FE_DOWNWARD'), (3, 'FE_TOWARDZERO')):
         mo_ = vlib.run_lines(exe, ['fenv %d' % mode] + [lines[i] for i in sub] + ['fenv 0'])[1:-1]
         nbad = 0
